@@ -9,7 +9,48 @@ per round-trip case:
   (a2) the loaded object (values/bounds representation) equals the model's `load`.
 Foreign files: the implementation's answer must be SignaturesFileError (the model's `load_file`,
 i.e. the reader with repo_fixes/C12.diff); the unrepaired reader answers OSError on unparsable files
-that begin with the HDF5 magic number (Props/C12.v: C12_refuse_current_refuted)."""
+that begin with the HDF5 magic number (Props/C12.v: C12_refuse_current_refuted).
+
+Coverage audit (item of the property text -> stream that drives it ON THE IMPLEMENTATION; P = the property predicate
+`observe` / "answer is SignaturesFileError" is judged there, M = also compared with the Coq model):
+  k 1..32, every index width, boundary values up to 4^k-1       all-k (P,M); api-kform: k as NumPy scalar (P)
+  prefix: '' .. 8 letters as str                                 all-k, random (P,M); api-pform: bytes / lower case (P)
+  index dtype u1..u8, i1..i8                                     random (P,M); api-base array_swapped/list_swapped: non-native order (P)
+  empty signatures, all-empty collections, n = 1                 exhaustive-small, all-empty (P,M); api-small-shapes (P)
+  containers: SignatureArray, SignatureList, Annotated(x)        every rt stream (P,M)
+    other ways to obtain them: dtype inferred / str / type, copy and cast constructors, array<->list conversion, slice
+    view, fancy-index result, reversed, from_arrays with offset bounds / other bounds dtype, strided / read-only /
+    wider / byte-swapped elements, mutated list, wrapper of a wrapper, user subclass of AbstractSignatureArray /
+    ReferenceSignatures, a loaded file written again (with and without new ids)   api-base, api-wrap (P)
+  ids: str as list / 'U' / object array, int with dtype, default range          random, all-k (P,M)
+    tuple, NumPy scalars, np.str_, strided / byte-swapped / read-only arrays, Python ints >= 2^63 (uint64)   api-idform (P)
+  metadata: None / '' / Unicode fields, nested extra, extra None / {}             random, all-k (P,M); api-* (P)
+  compression none / gzip / lzf                                   every rt stream (P,M); gzip levels 0/1/4/9, explicit None: api-comp (P)
+  larger payload (many chunks)                                    large (P,M)
+  int index (Python int, -n..n-1, out of range), slices, index lists, bool mask   observe in every rt stream (P; M for 2 slices + lists)
+    NumPy-scalar indices of 8 dtypes, index arrays of other dtypes / strided / byte-swapped / read-only, negative
+    entries, tuples, ranges, bool lists / tuples, slices with NumPy bounds, steps +-3 +-7, huge bounds, out-of-range
+    entries, indexing the result again, iteration, reversed(), SignatureArray(s) / SignatureList(s), sizes()   api-* via xidx (P)
+  dump_signatures / load_signatures (gambit.sigs)                 every rt stream (P,M)
+    format= given by keyword / position, all-keyword call, gambit.sigs.base.*, gambit.sigs.hdf5.*_hdf5,
+    HDF5Signatures.create on a root group / sub-group / libver=latest file / beside unrelated content (object returned
+    by create is observed too), HDF5Signatures(group), load kwargs (mode r / r+ / a, core driver, libver, rdcc)   api-writer/-reader/-rkw (P)
+  path: str                                                       every stream; Path, os.PathLike, Unicode / spaces / no extension / .h5 /
+                                                                  relative / 'x/..' paths: api-pathform (P)
+  same object written twice, destination already holding text or a bigger signature file, written object left
+    unchanged, two files open at once, same file opened twice, reopen, reading twice     api-reuse (P)
+  foreign: empty, text, FASTA, magic + garbage, truncated real file, random bytes, HDF5 without marker   foreign-raw, foreign-hdf5 (P,M)
+    gzip of FASTA / of a real file, shifted real file, JSON, CSV, npy, zip, SQLite, big text, HDF5 with the marker only
+    in a sub-group / as a dataset name / on a dataset / misspelt, libver=latest, float data; each through load_signatures
+    (str / Path / PathLike / keyword / mode / core driver), base.load_signatures, load_signatures_hdf5, HDF5Signatures(file
+    or group), `signatures info` (plain, -j, -i, -j -p, -d), `signatures create --db-params`, `tree -s`, `dist --qs/--rs`   foreign2 (P)
+  marked but defective files (outside the property)               malformed (M only)
+  `signatures create` -k -p -o -i -m + `info -i / -j` + FASTA refused          cli (P), 3 cases
+    -l / --ldir, default parameters, --db-params (k < 5, 1-letter prefix), -c, long options, progress bar, empty genome,
+    partial metadata, k up to 32; `info` plain report, `--json --pretty`, `-d DIR info -d -i`      cli-forms (P)
+Not driven: szip (libhdf5 refuses small chunks), bytes ids (come back as str; not "string or integer IDs"), `query -s`
+and ReferenceDatabase.load on a foreign file (need a genome database; same load_signatures call), HDF5 files with a user
+block, n = 0.  The api / foreign2 / cli-forms streams have no model counterpart: predicate only."""
 import itertools
 import json
 import os
@@ -18,7 +59,13 @@ PROP = 'C12'
 RULE = ('rt: collection -> dump_signatures -> load_signatures; non-trivial: >= 2 signatures of different '
         'lengths, or string ids, or non-ASCII / nested metadata.  foreign: file content -> load_signatures '
         'must raise SignaturesFileError; non-trivial: content starting with the HDF5 magic number or a '
-        'well-formed HDF5 file.  malformed: marked files with defects (tie only).  cli: signatures create / info')
+        'well-formed HDF5 file.  malformed: marked files with defects (tie only).  cli: signatures create / info '
+        '(also -l/--ldir, default and --db-params parameters, -c, plain / pretty / -d reports).  '
+        'api: the same round trip with the collection built / wrapped / re-loaded in other ways, ids and k-mer parameters in other '
+        'forms (NumPy scalars, tuples, strided, byte-swapped), other writer / reader entry points, keyword forms, gzip levels, '
+        'path kinds, reuse (written twice, overwriting, two files open) and NumPy-style index forms on the loaded file; every case '
+        'counts as non-trivial (each differs from the default form); judged by the property predicate only (no model).  '
+        'foreign2: non-signature contents x every Python reader and command that opens signature files; predicate only')
 TRUSTED = ['h5py / libhdf5: attribute and dataset semantics as modelled in Model/Store.v (typed 1-d arrays, '
            'Empty attributes, UTF-8 variable-length strings refusing NUL and surrogates, zero fill value); '
            'compression filters are transparent',
@@ -28,7 +75,10 @@ ASSUMPTIONS = ['collections have >= 1 signature; ids are all-int or all-str; str
                '(h5py refuses those at write time with ValueError -- checked in the malformed stream)',
                'the sum of signature lengths fits numpy intp',
                '`extra` is JSON-representable (string keys, no NaN)',
-               '"signature file" = HDF5 file whose root group carries the attribute gambit_signatures_version']
+               '"signature file" = HDF5 file whose root group carries the attribute gambit_signatures_version',
+               'api stream: "the same integer type" of a list whose elements are wider / byte-swapped arrays is the dtype the collection '
+               'declares (values are representable in it); for a collection written in non-native byte order only kind and width are '
+               'judged; strings are storable ones only; command line: k >= 5 and prefixes of >= 2 letters unless taken from --db-params']
 BATCH = 150
 SHRINK = False
 
@@ -209,10 +259,13 @@ def py_slices(n):
 				yield a, b, st
 
 
-def observe(s, case):
+def observe(s, case, dteq=None):
 	"""everything the property constrains about a loaded collection, checked against the harness's own
-	description; returns a list of differences (empty = property holds on this case)"""
+	description; returns a list of differences (empty = property holds on this case).  `dteq` compares
+	integer types (default: exact dtype equality; the api stream passes `dteq_kind` for collections written
+	in non-native byte order, where only kind and width are constrained)"""
 	import numpy as np
+	eq = dteq or (lambda a, b: a == b)
 	bad = []
 	sigs = case['sigs']
 	n = len(sigs)
@@ -223,7 +276,7 @@ def observe(s, case):
 		bad.append(f'kmerspec {s.kmerspec!r}')
 	got_ids = list(s.ids)
 	if kind == 'int':
-		if [int(x) for x in got_ids] != ivals or np.asarray(s.ids).dtype != np.dtype(idt):
+		if [int(x) for x in got_ids] != ivals or not eq(np.asarray(s.ids).dtype, np.dtype(idt)):
 			bad.append(f'ids {got_ids!r} dtype {np.asarray(s.ids).dtype}')
 	else:
 		if got_ids != ivals or not all(isinstance(x, str) for x in got_ids):
@@ -234,11 +287,11 @@ def observe(s, case):
 	if len(s) != n:
 		bad.append(f'len {len(s)}')
 		return bad
-	if s.dtype != dt:
+	if not eq(s.dtype, dt):
 		bad.append(f'dtype {s.dtype}')
 
 	def same(x, want):
-		return isinstance(x, np.ndarray) and x.dtype == dt and [int(v) for v in x] == want
+		return isinstance(x, np.ndarray) and eq(x.dtype, dt) and [int(v) for v in x] == want
 
 	for i in range(-n, n):
 		if not same(s[i], sigs[i]):
@@ -253,17 +306,17 @@ def observe(s, case):
 	for a, b, st in slices:
 		want = sigs[slice(a, b, st)]
 		got = s[a:b:st]
-		if len(got) != len(want) or got.dtype != dt or not all(same(x, w) for x, w in zip(got, want)) \
+		if len(got) != len(want) or not eq(got.dtype, dt) or not all(same(x, w) for x, w in zip(got, want)) \
 				or got.kmerspec != s.kmerspec:
 			bad.append(f'[{a}:{b}:{st}] -> {[list(map(int, x)) for x in got]!r} dtype {got.dtype}')
 	for idx in list(case.get('idx', [])) + [[], list(range(n))[::-1]]:
 		want = [sigs[i] for i in idx]
 		got = s[np.array(idx, dtype=np.intp)] if not idx else s[idx]
-		if len(got) != len(want) or got.dtype != dt or not all(same(x, w) for x, w in zip(got, want)):
+		if len(got) != len(want) or not eq(got.dtype, dt) or not all(same(x, w) for x, w in zip(got, want)):
 			bad.append(f'[{idx}] -> {[list(map(int, x)) for x in got]!r} dtype {got.dtype}')
 	mask = [i % 2 == 0 for i in range(n)]
 	got = s[np.array(mask)]
-	if [list(map(int, x)) for x in got] != [sigs[i] for i in range(n) if mask[i]] or got.dtype != dt:
+	if [list(map(int, x)) for x in got] != [sigs[i] for i in range(n) if mask[i]] or not eq(got.dtype, dt):
 		bad.append('[bool mask]')
 	return bad
 
@@ -541,17 +594,45 @@ def k_cli(ctx, cases):
 					f.write(f'>c{j}\n{s}\n')
 			files.append(fp)
 		out = os.path.join(d, 'out.gs')
-		args = ['signatures', 'create', '-k', str(c['k']), '-p', c['prefix'], '-o', out, '--no-progress']
+		lng = bool(c.get('long'))
+		pre = []
+		args = ['signatures', 'create', '--output' if lng else '-o', out]
+		if c.get('kspec', 'given') == 'given':
+			args += ['-k', str(c['k']), '--prefix' if lng else '-p', c['prefix']]
+		elif c['kspec'] == 'db':
+			# parameters taken from the signature file of a database directory (written here with h5py alone)
+			db = os.path.join(d, 'db')
+			os.makedirs(db)
+			with open(os.path.join(db, 'genomes.gdb'), 'w'):
+				pass
+			write_hdf(os.path.join(db, 'refs.gs'), dict(
+				attrs=dict(gambit_signatures_version=1, kmerspec_k=c['k'], kmerspec_prefix=c['prefix'], id='ref', name=None, id_attr='key',
+				           version=None, description=None, extra='{}'),
+				dsets=dict(values=dict(ints=[0], dtype=index_dtype(c['k'])), bounds=dict(ints=[0, 1]), ids=dict(strs=['r']))))
+			pre = ['--db' if lng else '-d', db]
+			args += ['--db-params' if lng else '-d']
+		if not c.get('progress'):
+			args += ['--no-progress']
+		if c.get('cores'):
+			args += ['--cores' if lng else '-c', str(c['cores'])]
 		if c.get('ids') is not None:
 			with open(os.path.join(d, 'ids.txt'), 'w') as f:
 				f.write(''.join(x + '\n' for x in c['ids']))
-			args += ['-i', os.path.join(d, 'ids.txt')]
+			args += ['--ids' if lng else '-i', os.path.join(d, 'ids.txt')]
 		if c.get('meta') is not None:
 			with open(os.path.join(d, 'meta.json'), 'w') as f:
 				json.dump(c['meta'], f)
-			args += ['-m', os.path.join(d, 'meta.json')]
+			args += ['--meta-json' if lng else '-m', os.path.join(d, 'meta.json')]
+		if c.get('input', 'args').startswith('listfile'):
+			ldir = c['input'] == 'listfile_ldir'
+			with open(os.path.join(d, 'list.txt'), 'w') as f:
+				f.write(''.join((os.path.basename(x) if ldir else x) + '\n' for x in files))
+			args += ['-l', os.path.join(d, 'list.txt')] + (['--ldir', d] if ldir else [])
+			pos = []
+		else:
+			pos = files
 		run = click.testing.CliRunner()
-		r = run.invoke(gambit.cli.cli, args + files)
+		r = run.invoke(gambit.cli.cli, pre + args + pos)
 		if r.exit_code != 0:
 			ctx.violation('cli', c, f'signatures create failed: {r.exception!r} {r.output[-200:]}', impl=r.exit_code)
 			continue
@@ -580,6 +661,44 @@ def k_cli(ctx, cases):
 			ok = False
 		if not ok:
 			ctx.violation('cli', c, '`signatures info -j` does not report the written parameters / metadata', impl=r.output[:500])
+		r = run.invoke(gambit.cli.cli, ['signatures', 'info', '--json', '--pretty', out])
+		try:
+			info = json.loads(r.output)
+			ok = info['count'] == len(want) and info['kmerspec'] == dict(k=c['k'], prefix=c['prefix']) and \
+				all(info['metadata'].get(f) == m[f] for f in m)
+		except Exception:
+			ok = False
+		if not ok:
+			ctx.violation('cli', c, '`signatures info --json --pretty` does not report the written parameters / metadata', impl=r.output[:500])
+		# the plain report: count, k, prefix, integer type and the metadata strings (those that print on one line unchanged)
+		r = run.invoke(gambit.cli.cli, ['signatures', 'info', out])
+		lines = [ln.strip() for ln in r.output.split('\n')]
+
+		def field(label):
+			for ln in lines:
+				if ln.startswith(label):
+					return ln[len(label):].strip()
+
+		import numpy as np
+		wantf = {'Genome Count:': str(len(want)), 'k:': str(c['k']), 'Prefix:': c['prefix'], 'Data type:': np.dtype(index_dtype(c['k'])).name}
+		for label, f in (('ID:', 'id'), ('Version:', 'version'), ('Name:', 'name'), ('Description:', 'description'), ('Genome ID attribute:', 'id_attr')):
+			v = m[f]
+			if v is None:
+				wantf[label] = '<none>'
+			elif v.isprintable() and v == v.strip() and '  ' not in v:
+				wantf[label] = v
+		gotf = {label: field(label) for label in wantf}
+		if r.exit_code != 0 or gotf != wantf:
+			ctx.violation('cli', c, f'`signatures info` (plain report) does not show the written parameters / metadata: {gotf}', impl=r.output[:800], spec=wantf)
+		# the same file found through a database directory
+		db2 = os.path.join(d, 'db2')
+		os.makedirs(db2)
+		with open(os.path.join(db2, 'g.gdb'), 'w'):
+			pass
+		os.link(out, os.path.join(db2, 'sigs.h5'))
+		r = run.invoke(gambit.cli.cli, ['-d', db2, 'signatures', 'info', '-d', '-i'])
+		if r.exit_code != 0 or r.output.split('\n')[:-1] != want_ids:
+			ctx.violation('cli', c, '`gambit -d DIR signatures info -d -i` does not list the ids', impl=r.output[:500], spec=want_ids)
 		# a genome file is not a signature file
 		r = run.invoke(gambit.cli.cli, ['signatures', 'info', files[0]])
 		if r.exit_code == 0 or not isinstance(r.exception, SignaturesFileError):
@@ -587,7 +706,748 @@ def k_cli(ctx, cases):
 			              spec='SignaturesFileError')
 
 
-KINDS = {'rt': k_rt, 'foreign': k_foreign, 'malformed': k_malformed, 'cli': k_cli}
+# ---- input forms / API variations (property predicate only; these lie outside the Coq store model) ----------
+
+class FsPath:
+	"""an os.PathLike that is neither str nor pathlib.Path"""
+	def __init__(self, p):
+		self.p = p
+
+	def __fspath__(self):
+		return self.p
+
+	def __str__(self):
+		return self.p
+
+
+def dteq_kind(a, b):
+	"""same integer type up to byte order (1-byte types have none)"""
+	import numpy as np
+	a, b = np.dtype(a), np.dtype(b)
+	return a.kind == b.kind and a.itemsize == b.itemsize
+
+
+def api_path(form):
+	import pathlib
+	base = tmp('api')
+	if form == 'Path':
+		return pathlib.Path(base + '.gs')
+	if form == 'fspath':
+		return FsPath(base + '.gs')
+	if form == 'unicode':
+		return base + ' sígs 漢字 😀.gs'
+	if form == 'space':
+		return base + ' with space .gs'
+	if form == 'noext':
+		return base
+	if form == 'h5':
+		return base + '.h5'
+	if form == 'rel':
+		return os.path.relpath(base + '.gs')
+	if form == 'dotdot':
+		os.makedirs(os.path.join(_state['dir'], 'x'), exist_ok=True)
+		return os.path.join(_state['dir'], 'x', '..', os.path.basename(base) + '.gs')
+	return base + '.gs'
+
+
+def api_kmerspec(case):
+	import numpy as np
+	from gambit.kmers import KmerSpec
+	k = {'int': int, 'np.int64': np.int64, 'np.uint8': np.uint8, 'np.intp': np.intp}[case.get('kform', 'int')](case['k'])
+	p = case['prefix']
+	p = {'str': p, 'bytes': p.encode(), 'lower': p.lower(), 'bytes_lower': p.encode().lower()}[case.get('pform', 'str')]
+	return KmerSpec(k, p)
+
+
+def api_ids(case):
+	"""the ids object handed to the wrapper, in the form named by case['idform']"""
+	import numpy as np
+	ids = case.get('ids')
+	if ids is None:
+		return None
+	form = case.get('idform', 'plain')
+	vals = list(ids['vals'])
+	if ids['kind'] == 'int':
+		dt = np.dtype(ids.get('dtype') or 'i8')
+		arr = np.array(vals, dtype=dt)
+		if form == 'pylist':
+			return vals                      # the generator guarantees NumPy infers ids['dtype'] for this list
+		if form == 'tuple':
+			return tuple(arr) if ids.get('dtype') else tuple(vals)
+		if form == 'scalars':
+			return list(arr)                 # Python list of NumPy scalars
+		if form == 'strided':
+			return np.repeat(arr, 2)[::2]
+		if form == 'swapped':
+			return arr.astype(dt.newbyteorder())
+		if form == 'readonly':
+			arr.flags.writeable = False
+			return arr
+		return arr if ids.get('dtype') else vals
+	if form == 'tuple':
+		return tuple(vals)
+	if form in ('scalars', 'npstr'):
+		return [np.str_(x) for x in vals]
+	if form == 'strided':
+		return np.repeat(np.array(vals, dtype=object), 2)[::2]
+	if form == 'swapped':
+		return np.repeat(np.array(vals), 2)[::2]     # strided 'U' array
+	if form == 'readonly':
+		arr = np.array(vals, dtype=object)
+		arr.flags.writeable = False
+		return arr
+	f = ids.get('as', 'list')
+	return vals if f == 'list' else np.array(vals, dtype=object if f == 'O' else None)
+
+
+def api_base(case, ks):
+	"""the bare collection, constructed the way case['base'] says; its content is always case['sigs'] with the
+	integer type case['dtype'] (byte-swapped for base == 'array_swapped')"""
+	import random
+	import numpy as np
+	from gambit.sigs import SignatureArray, SignatureList
+	from gambit.sigs.base import AbstractSignatureArray
+	dt = np.dtype(case['dtype'])
+	sw = dt.newbyteorder()
+	wide = np.dtype('u8' if dt.kind == 'u' else 'i8')
+	arrs = [np.array(s, dtype=dt) for s in case['sigs']]
+	n = len(arrs)
+	r = random.Random(case.get('seed', 0))
+	top = min(4 ** case['k'] - 1, int(np.iinfo(dt).max))
+
+	def junk():
+		return np.array(sorted({r.randint(0, top) for _ in range(r.randint(0, 3))}), dtype=dt)
+
+	v = case.get('base', 'array')
+	if v == 'array':
+		return SignatureArray(arrs, ks, dtype=dt)
+	if v == 'list':
+		return SignatureList(arrs, ks, dtype=dt)
+	if v == 'array_inferred':
+		return SignatureArray(arrs, ks)
+	if v == 'list_inferred':
+		return SignatureList(arrs, ks)
+	if v == 'array_kwargs':
+		return SignatureArray(signatures=tuple(arrs), kmerspec=ks, dtype=case['dtype'])
+	if v == 'list_strdtype':
+		return SignatureList(arrs, ks, dtype=case['dtype'])
+	if v == 'list_typedtype':
+		return SignatureList(iter(arrs), kmerspec=ks, dtype=dt.type)
+	if v == 'array_copy':
+		return SignatureArray(SignatureArray(arrs, ks, dtype=dt))
+	if v == 'array_cast':
+		return SignatureArray(SignatureArray([a.astype(wide) for a in arrs], ks, dtype=wide), dtype=dt)
+	if v == 'array_from_list':
+		return SignatureArray(SignatureList(arrs, ks, dtype=dt))
+	if v == 'list_from_array':
+		return SignatureList(SignatureArray(arrs, ks, dtype=dt))
+	if v == 'array_view':
+		a, b = r.randint(0, 3), r.randint(0, 3)
+		big = SignatureArray([junk() for _ in range(a)] + arrs + [junk() for _ in range(b)], ks, dtype=dt)
+		return big[a:a + n]
+	if v == 'array_fancy':
+		extra = r.randint(0, 3)
+		slots = list(range(n + extra))
+		r.shuffle(slots)
+		src = [junk() for _ in range(n + extra)]
+		for i in range(n):
+			src[slots[i]] = arrs[i]
+		return SignatureArray(src, ks, dtype=dt)[slots[:n]]
+	if v == 'array_rev':
+		return SignatureArray(arrs[::-1], ks, dtype=dt)[::-1]
+	if v in ('array_offset', 'array_bounds_other'):
+		pre, post = (junk(), junk()) if v == 'array_offset' else (arrs[0][:0], arrs[0][:0])
+		values = np.concatenate([pre] + arrs + [post]).astype(dt)
+		bdt = np.intp if v == 'array_offset' else np.dtype(r.choice(['i4', 'u8', 'u4', 'i8']))
+		bounds = (len(pre) + np.cumsum([0] + [len(a) for a in arrs])).astype(bdt)
+		return SignatureArray.from_arrays(values, bounds, ks)
+	if v == 'array_swapped':
+		return SignatureArray([a.astype(sw) for a in arrs], ks, dtype=sw)
+	if v == 'list_strided':
+		return SignatureList([np.repeat(a, 2)[::2] for a in arrs], ks, dtype=dt)
+	if v == 'list_swapped':
+		return SignatureList([a.astype(sw) for a in arrs], ks, dtype=dt)
+	if v == 'list_wider':
+		return SignatureList([a.astype(wide) for a in arrs], ks, dtype=dt)
+	if v == 'list_readonly':
+		for a in arrs:
+			a.flags.writeable = False
+		return SignatureList(arrs, ks, dtype=dt)
+	if v == 'list_mutated':
+		l = SignatureList([junk(), junk()], ks, dtype=dt)
+		l[0] = arrs[0]
+		del l[1]
+		l.insert(0, junk())
+		for a in arrs[1:]:
+			l.append(a)
+		l.pop(0)
+		l.extend([junk()])
+		del l[-1]
+		return l
+	if v == 'custom_plain':
+		class Plain(AbstractSignatureArray):
+			def __init__(self):
+				self.kmerspec, self.dtype = ks, dt
+
+			def __len__(self):
+				return n
+
+			def __getitem__(self, i):
+				return arrs[i]
+		return Plain()
+	raise ValueError(v)
+
+
+def api_file1(case, ids_meta):
+	"""a genuine signature file written by the harness with h5py alone (source of the 're-dump' cases)"""
+	import numpy as np
+	sigs = case['sigs']
+	kind, idt, ivals = ids_meta[0]
+	m = ids_meta[1]
+	attrs = dict(gambit_signatures_version=1, kmerspec_k=case['k'], kmerspec_prefix=case['prefix'])
+	for f in META_FIELDS:
+		attrs[f] = m[f]
+	attrs['extra'] = None if m['extra'] is None else json.dumps(m['extra'])
+	dsets = dict(values=dict(ints=[v for s in sigs for v in s], dtype=case['dtype']),
+	             bounds=dict(ints=[int(x) for x in np.cumsum([0] + [len(s) for s in sigs])], dtype='i8'),
+	             ids=dict(strs=ivals) if kind == 'str' else dict(ints=ivals, dtype=idt))
+	path = tmp('src') + '.gs'
+	write_hdf(path, dict(attrs=attrs, dsets=dsets))
+	return path
+
+
+def api_build(case, keep):
+	"""the object handed to the writer; `keep` collects (open source collection, path) pairs to close afterwards"""
+	from gambit.sigs import AnnotatedSignatures, SignaturesMeta, load_signatures
+	from gambit.sigs.base import ReferenceSignatures
+	ks = api_kmerspec(case)
+	wrap = case.get('wrap', 'none')
+	m = case.get('meta')
+	meta = None if m is None else SignaturesMeta(**m)
+	if wrap in ('reloaded', 'annot_reloaded'):
+		other = (('str', None, [f'old{i}' for i in range(len(case['sigs']))]),
+		         dict(id='old', name='old', id_attr=None, version='0', description=None, extra={'old': [1]}))
+		path = api_file1(case, (eff_ids(case), eff_meta(case)) if wrap == 'reloaded' else other)
+		src = load_signatures(path)
+		keep.append((src, path))
+		return src if wrap == 'reloaded' else AnnotatedSignatures(src, api_ids(case), meta)
+	if wrap == 'custom_ref':
+		import numpy as np
+		arrs = [np.array(s, dtype=case['dtype']) for s in case['sigs']]
+		pids = api_ids(case)
+
+		class Ref(ReferenceSignatures):
+			def __init__(self):
+				self.kmerspec, self.dtype = ks, np.dtype(case['dtype'])
+				self.ids = list(range(len(arrs))) if pids is None else pids
+				self.meta = SignaturesMeta() if meta is None else meta
+
+			def __len__(self):
+				return len(arrs)
+
+			def __getitem__(self, i):
+				return arrs[i]
+		return Ref()
+	base = api_base(case, ks)
+	if wrap == 'none':
+		return base
+	if wrap == 'annot_annot':
+		base = AnnotatedSignatures(base, [f'inner{i}' for i in range(len(base))], SignaturesMeta(id='inner', extra={'inner': True}))
+	return AnnotatedSignatures(base, api_ids(case), meta)
+
+
+def api_snapshot(obj):
+	"""what the caller can see of the object it handed to the writer"""
+	import copy
+	import attr
+	sigs = [[int(v) for v in x] for x in obj]
+	ids = [x.item() if hasattr(x, 'item') else x for x in obj.ids] if hasattr(obj, 'ids') else None
+	meta = copy.deepcopy(attr.asdict(obj.meta)) if hasattr(obj, 'meta') else None
+	return sigs, ids, meta, str(obj.dtype), (int(obj.kmerspec.k), obj.kmerspec.prefix_str)
+
+
+def api_write(case, obj, path, comp, copts, bad, dteq):
+	"""returns the name of the group holding the signatures (None = the root group)"""
+	import h5py
+	import gambit.sigs
+	import gambit.sigs.base
+	import gambit.sigs.hdf5
+	w = case.get('writer', 'dump')
+	kw = {}
+	if comp is not None or case.get('explicit_none'):
+		kw['compression'] = comp
+	if copts is not None or case.get('explicit_none'):
+		kw['compression_opts'] = copts
+	if w == 'dump':
+		gambit.sigs.dump_signatures(path, obj, **kw)
+	elif w == 'dump_fmt_kw':
+		gambit.sigs.dump_signatures(path, obj, format='hdf5', **kw)
+	elif w == 'dump_fmt_pos':
+		gambit.sigs.dump_signatures(path, obj, 'hdf5', **kw)
+	elif w == 'dump_kwargs':
+		gambit.sigs.dump_signatures(path=path, signatures=obj, **kw)
+	elif w == 'base':
+		gambit.sigs.base.dump_signatures(path, obj, **kw)
+	elif w == 'hdf5':
+		gambit.sigs.hdf5.dump_signatures_hdf5(path, obj, **kw)
+	elif w in ('create_root', 'create_group', 'create_latest', 'create_beside'):
+		fkw = dict(libver='latest') if w == 'create_latest' else {}
+		with h5py.File(path, 'w', **fkw) as f:
+			g = f
+			if w == 'create_group':
+				g = f.create_group('sub/sigs')
+			if w == 'create_beside':
+				f.create_group('other').attrs['title'] = 'unrelated'
+				f['other'].create_dataset('data', data=[1.5, 2.5])
+			got = gambit.sigs.hdf5.HDF5Signatures.create(g, obj, **kw)
+			bad += ['object returned by HDF5Signatures.create: ' + b for b in observe(got, case, dteq)]
+		return 'sub/sigs' if w == 'create_group' else None
+	else:
+		raise ValueError(w)
+	return None
+
+
+def api_open(case, path, group=None):
+	import h5py
+	import gambit.sigs
+	import gambit.sigs.base
+	import gambit.sigs.hdf5
+	kw = dict(case.get('rkw') or {})
+	rd = case.get('reader', 'load')
+	if group is not None or rd == 'class':
+		f = h5py.File(path, **dict(dict(mode='r'), **kw))
+		return gambit.sigs.hdf5.HDF5Signatures(f[group] if group else f)
+	if rd == 'base':
+		return gambit.sigs.base.load_signatures(path, **kw)
+	if rd == 'hdf5':
+		return gambit.sigs.hdf5.load_signatures_hdf5(path, **kw)
+	if rd == 'load_kwargs':
+		return gambit.sigs.load_signatures(path=path, **kw)
+	return gambit.sigs.load_signatures(path, **kw)
+
+
+def mk_index(spec, n):
+	"""index object described by spec, and the positions it selects in a sequence of n items:
+	int (single item) | list (sub-collection) | 'oob' (must raise IndexError)"""
+	import numpy as np
+	t = spec['t']
+	if t == 'int':
+		v = spec['v']
+		idx = v if spec['dt'] == 'py' else np.dtype(spec['dt']).type(v)
+		return idx, (v % n if -n <= v < n else 'oob')
+	if t in ('arr', 'seq'):
+		v = spec['v']
+		want = [i % n for i in v] if all(-n <= i < n for i in v) else 'oob'
+		if t == 'seq':
+			how = spec.get('as', 'list')
+			items = v if spec.get('dt', 'py') == 'py' else list(np.array(v, dtype=spec['dt']))
+			return (tuple(items) if how == 'tuple' else list(items)), want
+		a = np.array(v, dtype=spec['dt'])
+		how = spec.get('how', 'plain')
+		if how == 'strided':
+			a = np.repeat(a, 2)[::2]
+		elif how == 'swapped':
+			a = a.astype(a.dtype.newbyteorder())
+		elif how == 'readonly':
+			a.flags.writeable = False
+		return a, want
+	if t == 'range':
+		rg = range(spec['a'], spec['b'], spec['st'])
+		return rg, ([i % n for i in rg] if all(-n <= i < n for i in rg) else 'oob')
+	if t == 'bool':
+		m = [bool(x) for x in spec['v']]
+		how = spec.get('as', 'arr')
+		idx = m if how == 'list' else tuple(m) if how == 'tuple' else np.repeat(np.array(m), 2)[::2] if how == 'strided' else np.array(m)
+		return idx, ([i for i in range(n) if m[i]] if len(m) == n else 'oob')
+	if t == 'slice':
+		f = (lambda x: x) if not spec.get('dt') else (lambda x: None if x is None else np.dtype(spec['dt']).type(x))
+		return slice(f(spec['a']), f(spec['b']), f(spec['st'])), list(range(n))[slice(spec['a'], spec['b'], spec['st'])]
+	raise ValueError(t)
+
+
+def apply_spec(coll, sigs, spec, dt, eq, ks, bad, label=''):
+	"""index `coll` (whose content must be `sigs`) as spec says and compare with what a Python list gives"""
+	import numpy as np
+	n = len(sigs)
+	idx, want = mk_index(spec, n)
+	desc = f'{label}[{ {k: v for k, v in spec.items() if k != "then"} }]'
+	try:
+		got = coll[idx]
+	except IndexError as e:
+		if want != 'oob':
+			bad.append(f'{desc} raised IndexError: {e}')
+		return
+	except Exception as e:
+		bad.append(f'{desc} raised {type(e).__name__}: {e}')
+		return
+	if want == 'oob':
+		bad.append(f'{desc} did not raise IndexError')
+		return
+
+	def same(x, w):
+		return isinstance(x, np.ndarray) and eq(x.dtype, dt) and [int(v) for v in x] == w
+
+	if isinstance(want, int):
+		if not same(got, sigs[want]):
+			bad.append(f'{desc} = {got!r}, written {sigs[want]}')
+		return
+	exp = [sigs[i] for i in want]
+	try:
+		ok = len(got) == len(exp) and eq(got.dtype, dt) and all(same(got[i], exp[i]) for i in range(len(exp))) \
+			and all(same(x, w) for x, w in zip(got, exp)) and got.kmerspec == ks
+	except Exception as e:
+		bad.append(f'{desc}: result unusable: {type(e).__name__}: {e}')
+		return
+	if not ok:
+		bad.append(f'{desc} -> {[list(map(int, x)) for x in got]!r} dtype {got.dtype}, written {exp}')
+		return
+	if spec.get('then') is not None and exp:
+		apply_spec(got, exp, spec['then'], dt, eq, ks, bad, label=desc)
+
+
+def observe_more(s, case, eq):
+	"""further ways of looking at the loaded signatures: iteration, conversion to the in-memory containers, sizes,
+	and the index forms listed in case['xidx'] (NumPy scalars, index arrays of other dtypes / layouts, tuples, ranges,
+	bool lists, slices with NumPy bounds and other steps, negative entries, indexing of an indexing result)"""
+	import numpy as np
+	from gambit.sigs import SignatureArray, SignatureList
+	bad = []
+	sigs = case['sigs']
+	dt = np.dtype(case['dtype'])
+
+	def lists(xs):
+		return [[int(v) for v in x] for x in xs]
+
+	def typed(xs):
+		return all(isinstance(x, np.ndarray) and eq(x.dtype, dt) for x in xs)
+
+	it = list(s)
+	if lists(it) != sigs or not typed(it):
+		bad.append(f'iteration yields {lists(it)!r}')
+	it = list(reversed(s))
+	if lists(it) != sigs[::-1] or not typed(it):
+		bad.append(f'reversed() yields {lists(it)!r}')
+	sa = SignatureArray(s)
+	if lists(sa) != sigs or not eq(sa.dtype, dt) or sa.kmerspec != s.kmerspec or [int(x) for x in sa.values] != [v for x in sigs for v in x]:
+		bad.append(f'SignatureArray(loaded) = {lists(sa)!r} dtype {sa.dtype}')
+	sl = SignatureList(s)
+	if lists(sl) != sigs or not eq(np.dtype(sl.dtype), dt) or sl.kmerspec != s.kmerspec or not typed(list(sl)):
+		bad.append(f'SignatureList(loaded) = {lists(sl)!r} dtype {sl.dtype}')
+	if [int(x) for x in s.sizes()] != [len(x) for x in sigs]:
+		bad.append(f'sizes() = {list(s.sizes())!r}')
+	for i in range(-len(sigs), len(sigs)):
+		if int(s.sizeof(i)) != len(sigs[i]) or int(s.sizeof(np.int16(i))) != len(sigs[i]):
+			bad.append(f'sizeof({i}) = {s.sizeof(i)!r}')
+	for spec in case.get('xidx', []):
+		apply_spec(s, sigs, spec, dt, eq, s.kmerspec, bad)
+	return bad
+
+
+def api_run(c):
+	"""list of differences between what was written and what is read back (empty = the property holds)"""
+	import gc
+	import traceback
+	from gambit.sigs import load_signatures
+	bad = []
+	keep = []
+	paths = []
+	eq = dteq_kind if c.get('base') == 'array_swapped' or c.get('idform') == 'swapped' else None
+	eq2 = eq or (lambda a, b: a == b)
+	reuse = c.get('reuse')
+	stage = 'constructing the collection'
+	try:
+		obj = api_build(c, keep)
+		snap = api_snapshot(obj)
+		stage = 'writing'
+		paths.append(api_path(c.get('pathform', 'str')))
+		if reuse == 'overwrite':
+			# something else already lives at the destination: the file must be replaced, not appended to
+			pre = c.get('pre', 'text')
+			if pre == 'text':
+				with open(paths[0], 'w') as f:
+					f.write('not a signature file\n' * 50)
+			else:
+				big = dict(c, sigs=[[1, 2, 3]] * (len(c['sigs']) + 3), k=4, prefix='G', dtype='u1')
+				p1 = api_file1(big, (('str', None, [f'pre{i}' for i in range(len(big['sigs']))]),
+				                     dict(id='pre', name=None, id_attr='pre', version=None, description='pre', extra={'pre': 1})))
+				os.replace(p1, paths[0])
+		groups = [api_write(c, obj, paths[0], c.get('compression'), c.get('copts'), bad, eq)]
+		if reuse == 'twice':
+			paths.append(api_path('str'))
+			groups.append(api_write(c, obj, paths[1], c.get('compression2'), None, bad, eq))
+		if api_snapshot(obj) != snap:
+			bad.append(f'the collection handed to the writer was changed by writing it: {api_snapshot(obj)!r} was {snap!r}')
+		for src, _ in keep:
+			src.close()
+		stage = 'loading'
+		for path, grp in zip(paths, groups):
+			if grp is not None:
+				# the root group of this file carries no marker: as a whole it is an HDF5 file of another kind
+				try:
+					load_signatures(path).close()
+					bad.append('file whose root group is unmarked (signatures in a sub-group) was loaded')
+				except Exception as e:
+					if errname(e) != 'SignaturesFileError':
+						bad.append(f'file whose root group is unmarked is answered with {type(e).__name__}')
+				# the refusing reader leaves its h5py.File to the garbage collector (exception <-> frame cycle); not judged
+				# by this property, but a read-write open below needs the handle gone
+				gc.collect()
+			if reuse == 'reopen':
+				api_open(c, path, grp).close()
+			other = None
+			if reuse == 'two_open':
+				p2 = api_file1(dict(k=c['k'] % 32 + 1, prefix='G', dtype='u1', sigs=[[9], [], [1, 2]]),
+				               (('int', 'i8', [7, 8, 9]), dict(id='other', name=None, id_attr=None, version=None, description=None, extra=None)))
+				other = load_signatures(p2)
+				keep.append((other, p2))
+			elif reuse == 'same_file' and (c.get('rkw') or {}).get('mode') != 'r+':
+				other = api_open(c, path, grp)
+				keep.append((other, None))
+			s = api_open(c, path, grp)
+			try:
+				bad += observe(s, c, eq)
+				bad += observe_more(s, c, eq2)
+				if other is not None:
+					[int(v) for x in other for v in x]
+					list(other.ids)
+					other.close()
+					bad += ['after using and closing another open file: ' + b for b in observe(s, c, eq)]
+				if reuse == 'observe_twice':
+					bad += ['second look: ' + b for b in observe(s, c, eq) + observe_more(s, c, eq2)]
+			finally:
+				s.close()
+	except Exception as e:
+		tb = traceback.extract_tb(e.__traceback__)[-1]
+		bad.append(f'{stage}: {type(e).__name__}: {e} ({os.path.basename(tb.filename)}:{tb.lineno})')
+	finally:
+		for src, p in keep:
+			try:
+				src.close()
+			except Exception:
+				pass
+			if p:
+				_rm(p)
+		for p in paths:
+			_rm(os.fspath(p))
+	return bad
+
+
+def k_api(ctx, cases):
+	for c in cases:
+		ctx.case(c, nontrivial=True)
+		m = eff_meta(c)
+		if m['extra'] is not None and json.loads(json.dumps(m['extra'])) != m['extra']:
+			continue
+		bad = api_run(c)
+		if bad:
+			ctx.violation('api', c, 'written collection and loaded collection differ: ' + '; '.join(bad[:3]), impl=bad[:8], spec='identical',
+			              model='not modelled (input form / API outside Model/Store.v)')
+
+
+# ---- foreign content through every reader (property predicate only) -------------------------------------------
+
+def fx_content(name, seed, path):
+	"""write the named non-signature content to path"""
+	import gzip
+	import random
+	import h5py
+	import numpy as np
+	r = random.Random(seed)
+	fasta = ''.join(f'>contig{i} len\n' + '\n'.join(''.join(r.choice('ACGT') for _ in range(60)) for _ in range(r.randint(1, 5))) + '\n'
+	                for i in range(r.randint(1, 4))).encode()
+	raw = None
+	if name == 'empty':
+		raw = b''
+	elif name == 'text':
+		raw = b'GAMBIT signatures\nversion 1\n' * r.randint(1, 30)
+	elif name == 'text_big':
+		raw = bytes(r.choice(b'abcdefghij \n') for _ in range(100000))
+	elif name == 'fasta':
+		raw = fasta
+	elif name == 'fasta_gz':
+		raw = gzip.compress(fasta)
+	elif name == 'real_gz':
+		raw = gzip.compress(real_file_bytes(r, 'gzip'))
+	elif name == 'real_shifted':
+		raw = r.choice([b'\n', b'#', b'\x00' * 7]) + real_file_bytes(r, None)
+	elif name == 'real_truncated':
+		real = real_file_bytes(r, r.choice([None, 'lzf']))
+		raw = real[:r.randint(8, len(real) * 3 // 4)]
+	elif name == 'magic_garbage':
+		raw = MAGIC + bytes(r.randrange(256) for _ in range(r.randint(0, 400)))
+	elif name == 'json':
+		raw = json.dumps(dict(gambit_signatures_version=1, kmerspec_k=11, kmerspec_prefix='ATGAC', ids=['a'], values=[1, 2], bounds=[0, 2])).encode()
+	elif name == 'csv':
+		raw = b'query,predicted.name,closest.distance\nq1,Escherichia coli,0.01\n'
+	elif name == 'npy':
+		import io
+		b = io.BytesIO()
+		np.save(b, np.arange(r.randint(1, 50), dtype='u4'))
+		raw = b.getvalue()
+	elif name == 'zip':
+		import io
+		b = io.BytesIO()
+		np.savez(b, values=np.arange(5), bounds=np.array([0, 5]))
+		raw = b.getvalue()
+	elif name == 'sqlite':
+		import sqlite3
+		con = sqlite3.connect(path)
+		con.execute('create table genomes (id integer primary key, key text)')
+		con.executemany('insert into genomes values (?, ?)', [(i, f'g{i}') for i in range(r.randint(1, 20))])
+		con.commit()
+		con.close()
+		return
+	if raw is not None:
+		with open(path, 'wb') as f:
+			f.write(raw)
+		return
+	sig = dict(values=np.array([1, 2, 3], dtype='u2'), bounds=np.array([0, 1, 3]), ids=np.array([5, 6]))
+	attrs = dict(kmerspec_k=5, kmerspec_prefix='AT', id='x', extra='{}')
+	with h5py.File(path, 'w', **(dict(libver='latest') if name == 'hdf_latest' else {})) as f:
+		if name in ('hdf_empty', 'hdf_latest'):
+			pass
+		elif name == 'hdf_nested_sigs':
+			g = f.create_group('a/b')
+			g.attrs['gambit_signatures_version'] = 1
+			for k, v in attrs.items():
+				g.attrs[k] = v
+			for k, v in sig.items():
+				g.create_dataset(k, data=v)
+		elif name == 'hdf_marker_dataset':
+			f.create_dataset('gambit_signatures_version', data=1)
+			for k, v in attrs.items():
+				f.attrs[k] = v
+			for k, v in sig.items():
+				f.create_dataset(k, data=v)
+		elif name == 'hdf_marker_on_dataset':
+			for k, v in sig.items():
+				f.create_dataset(k, data=v).attrs['gambit_signatures_version'] = 1
+			for k, v in attrs.items():
+				f.attrs[k] = v
+		elif name == 'hdf_nomark_full':
+			for k, v in attrs.items():
+				f.attrs[k] = v
+			for k, v in sig.items():
+				f.create_dataset(k, data=v)
+		elif name == 'hdf_float':
+			f.create_dataset('matrix', data=np.array([[r.random() for _ in range(4)] for _ in range(3)]), compression='gzip')
+			f.attrs['CLASS'] = 'GROUP'
+			f.attrs['TITLE'] = 'distance matrix'
+			f.attrs['VERSION'] = '1.0'
+		elif name == 'hdf_other_version_attr':
+			f.attrs['version'] = 1
+			f.attrs['signatures_version'] = 1
+			f.attrs['gambit_signatures_version '] = 1
+			f.attrs[' gambit_signatures_version'] = 1
+		else:
+			raise ValueError(name)
+
+
+FX_CONTENTS = ('empty', 'text', 'text_big', 'fasta', 'fasta_gz', 'real_gz', 'real_shifted', 'real_truncated', 'magic_garbage', 'json', 'csv',
+               'npy', 'zip', 'sqlite', 'hdf_empty', 'hdf_latest', 'hdf_nested_sigs', 'hdf_marker_dataset', 'hdf_marker_on_dataset',
+               'hdf_nomark_full', 'hdf_float', 'hdf_other_version_attr')
+FX_PY = ('load', 'load_path', 'load_fspath', 'load_kwargs', 'load_mode_r', 'load_core', 'base', 'hdf5', 'class', 'class_group')
+FX_CLI = ('info', 'info_j', 'info_i', 'info_jp', 'info_db', 'create_db', 'tree', 'dist_qs', 'dist_rs')
+
+
+def fx_genuine(path):
+	write_hdf(path, dict(attrs=dict(gambit_signatures_version=1, kmerspec_k=5, kmerspec_prefix='AT', id=None, name=None, id_attr=None,
+	                                version=None, description=None, extra='{}'),
+	                     dsets=dict(values=dict(ints=[1, 2, 3], dtype='u2'), bounds=dict(ints=[0, 1, 3]), ids=dict(strs=['a', 'b']))))
+
+
+def k_foreign2(ctx, cases):
+	"""a file that is not a signature file, offered to every function / command that opens signature files"""
+	import pathlib
+	import shutil
+	import h5py
+	import click.testing
+	import gambit.cli
+	import gambit.sigs
+	import gambit.sigs.base
+	import gambit.sigs.hdf5
+	for c in cases:
+		d = tmp('fx2')
+		os.makedirs(d)
+		path = os.path.join(d, c.get('fname', 'file.bin'))
+		fx_content(c['content'], c['seed'], path)
+		# independent classification with h5py alone: does libhdf5 read it, is its root group marked?
+		try:
+			with h5py.File(path, 'r') as f:
+				parsable, marked = True, 'gambit_signatures_version' in f.attrs
+		except Exception:
+			parsable, marked = False, False
+		ch = c['channel']
+		if marked or (ch in ('class', 'class_group') and not parsable):
+			ctx.count('foreign2:not-applicable (skipped)')
+			shutil.rmtree(d, ignore_errors=True)
+			continue
+		ctx.case(c, nontrivial=True)
+		got = None
+		try:
+			if ch in FX_PY:
+				try:
+					if ch == 'load':
+						s = gambit.sigs.load_signatures(path)
+					elif ch == 'load_path':
+						s = gambit.sigs.load_signatures(pathlib.Path(path))
+					elif ch == 'load_fspath':
+						s = gambit.sigs.load_signatures(FsPath(path))
+					elif ch == 'load_kwargs':
+						s = gambit.sigs.load_signatures(path=path)
+					elif ch == 'load_mode_r':
+						s = gambit.sigs.load_signatures(path, mode='r')
+					elif ch == 'load_core':
+						s = gambit.sigs.load_signatures(path, driver='core', backing_store=False)
+					elif ch == 'base':
+						s = gambit.sigs.base.load_signatures(path)
+					elif ch == 'hdf5':
+						s = gambit.sigs.hdf5.load_signatures_hdf5(path)
+					else:
+						with h5py.File(path, 'r') as f:
+							g = f
+							if ch == 'class_group':
+								subs = [f[x] for x in f if isinstance(f[x], h5py.Group) and 'gambit_signatures_version' not in f[x].attrs]
+								g = subs[0] if subs else f
+							s = gambit.sigs.hdf5.HDF5Signatures(g)
+					got = ('ok', f'loaded {len(s)} signatures')
+					s.close()
+				except Exception as e:
+					got = ('err', errname(e))
+			else:
+				from gambit.sigs.base import SignaturesFileError
+				run = click.testing.CliRunner()
+				good = os.path.join(d, 'good.gs')
+				fx_genuine(good)
+				db = os.path.join(d, 'db')
+				os.makedirs(db)
+				with open(os.path.join(db, 'genomes.gdb'), 'w'):
+					pass
+				shutil.copy(path, os.path.join(db, 'sigs.gs'))
+				fa = os.path.join(d, 'genome.fasta')
+				with open(fa, 'w') as f:
+					f.write('>s\nATACGTACGTTTATCCGGA\n')
+				args = {'info': ['signatures', 'info', path], 'info_j': ['signatures', 'info', '-j', path],
+				        'info_i': ['signatures', 'info', '--ids', path], 'info_jp': ['signatures', 'info', '--json', '--pretty', path],
+				        'info_db': ['-d', db, 'signatures', 'info', '-d'],
+				        'create_db': ['--db', db, 'signatures', 'create', '--db-params', '-o', os.path.join(d, 'o.gs'), '--no-progress', fa],
+				        'tree': ['tree', '-s', path],
+				        'dist_qs': ['dist', '--qs', path, '--rs', good, '-o', os.path.join(d, 'o.csv')],
+				        'dist_rs': ['dist', '--qs', good, '--rs', path, '-o', os.path.join(d, 'o.csv')]}[ch]
+				r = run.invoke(gambit.cli.cli, args)
+				if r.exit_code == 0:
+					got = ('ok', r.output[:200])
+				else:
+					got = ('err', errname(r.exception) if isinstance(r.exception, Exception) else repr(r.exception))
+		finally:
+			shutil.rmtree(d, ignore_errors=True)
+		if got != ('err', 'SignaturesFileError'):
+			ctx.violation('foreign2', c, f'a file that is not a signature file ({c["content"]}) offered through {ch} is answered with '
+			              f'{got[1]} instead of SignaturesFileError', impl=got, spec=['err', 'SignaturesFileError'],
+			              model='not modelled (reader entry point outside Model/Store.v)')
+
+
+KINDS = {'rt': k_rt, 'foreign': k_foreign, 'malformed': k_malformed, 'cli': k_cli, 'api': k_api, 'foreign2': k_foreign2}
 
 # ---- generators ----------------------------------------------------------------------------------------------
 
@@ -722,6 +1582,10 @@ def generate(ctx):
 		                                            extra={'author': rstr(rng), 'nested': {'a': [1, None]}})
 		ctx.count('stream:cli')
 		yield 'cli', dict(k=k, prefix=prefix, genomes=genomes, ids=ids, meta=meta)
+	# ---- input forms, alternative entry points, reuse (property predicate only)
+	yield from gen_api(ctx, rng)
+	yield from gen_foreign2(ctx, rng)
+	yield from gen_cli2(ctx, rng)
 
 
 def real_file_bytes(rng, comp):
@@ -783,3 +1647,212 @@ def gen_foreign(ctx, rng):
 	for h in mal:
 		ctx.count('stream:malformed')
 		yield 'malformed', dict(form='hdf', **h)
+
+
+# ---- generators of the api / foreign2 / extended cli streams --------------------------------------------------
+
+API_DIMS = dict(
+	base=['array', 'list', 'array_inferred', 'list_inferred', 'array_kwargs', 'list_strdtype', 'list_typedtype', 'array_copy', 'array_cast',
+	      'array_from_list', 'list_from_array', 'array_view', 'array_fancy', 'array_rev', 'array_offset', 'array_bounds_other',
+	      'array_swapped', 'list_strided', 'list_swapped', 'list_wider', 'list_readonly', 'list_mutated', 'custom_plain'],
+	wrap=['none', 'annot', 'annot_annot', 'custom_ref', 'reloaded', 'annot_reloaded'],
+	kform=['int', 'np.int64', 'np.uint8', 'np.intp'],
+	pform=['str', 'bytes', 'lower', 'bytes_lower'],
+	idform=['plain', 'pylist', 'tuple', 'scalars', 'strided', 'swapped', 'readonly'],
+	writer=['dump', 'dump_fmt_kw', 'dump_fmt_pos', 'dump_kwargs', 'base', 'hdf5', 'create_root', 'create_group', 'create_latest', 'create_beside'],
+	comp=[[None, None], ['gzip', None], ['lzf', None], ['gzip', 0], ['gzip', 1], ['gzip', 4], ['gzip', 9], [None, 'explicit']],
+	pathform=['str', 'Path', 'fspath', 'unicode', 'space', 'noext', 'h5', 'rel', 'dotdot'],
+	reader=['load', 'base', 'hdf5', 'class', 'load_kwargs'],
+	rkw=[{}, {'mode': 'r'}, {'mode': 'r+'}, {'driver': 'core', 'backing_store': False}, {'libver': 'latest'}, {'rdcc_nbytes': 0},
+	     {'driver': 'sec2'}, {'mode': 'a'}],
+	reuse=[None, 'twice', 'overwrite', 'overwrite_sigfile', 'two_open', 'same_file', 'reopen', 'observe_twice'],
+)
+NPINT = ('i1', 'u1', 'i2', 'u2', 'i4', 'u4', 'i8', 'u8')
+
+
+def rpos(rng, n, dt):
+	"""an in-range position, negative ones only for signed / Python ints"""
+	return rng.randrange(n) if dt[0] == 'u' else rng.randrange(-n, n)
+
+
+def rxspec(rng, n, t, nest=True):
+	"""one index description of type t for a sequence of n >= 1 items"""
+	if t == 'int':
+		dt = rng.choice(NPINT + ('py',))
+		return dict(t='int', dt=dt, v=rpos(rng, n, dt))
+	if t == 'int_oob':
+		dt = rng.choice(('py', 'i2', 'i8', 'u1', 'u8'))
+		return dict(t='int', dt=dt, v=rng.choice([n, n + 1] if dt[0] == 'u' else [n, -n - 1, n + 3]))
+	if t in ('arr', 'arr_oob'):
+		dt = rng.choice(NPINT)
+		v = [rpos(rng, n, dt) for _ in range(rng.choice([0, 1, 2, 3, rng.randint(1, 8)]))]
+		if t == 'arr_oob':
+			v.insert(rng.randint(0, len(v)), n if dt[0] == 'u' else rng.choice([n, -n - 1]))
+		spec = dict(t='arr', dt=dt, v=v, how=rng.choice(['plain', 'strided', 'swapped', 'readonly']))
+	elif t == 'seq':
+		dt = rng.choice(NPINT + ('py', 'py', 'py'))
+		spec = dict(t='seq', dt=dt, v=[rpos(rng, n, dt) for _ in range(rng.choice([0, 1, 2, rng.randint(1, 8)]))], **{'as': rng.choice(['list', 'tuple'])})
+	elif t == 'range':
+		st = rng.choice([1, 1, 2, 3, -1, -2])
+		a = rng.randrange(-n, n)
+		room = len(range(a, n if st > 0 else -n - 1, st))      # steps that stay inside -n..n-1
+		spec = dict(t='range', a=a, b=a + rng.randint(0, room) * st, st=st)
+	elif t == 'bool':
+		spec = dict(t='bool', v=[rng.randrange(2) for _ in range(n)], **{'as': rng.choice(['arr', 'list', 'tuple', 'strided'])})
+	elif t == 'slice':
+		dt = rng.choice([None, None, 'i8', 'i4', 'i1', 'u1', 'u8'])
+		lo = 0 if dt and dt[0] == 'u' else -n - 2
+		big = [] if dt else [10 ** 20, -10 ** 20]
+		a, b = (rng.choice([None, rng.randint(lo, n + 2), rng.randint(lo, n + 2)] + big) for _ in range(2))
+		st = rng.choice([None, 1, 2, 3, 7] + ([] if dt and dt[0] == 'u' else [-1, -2, -3, -7]) + ([] if dt else [10 ** 20]))
+		spec = dict(t='slice', a=a, b=b, st=st, dt=dt)
+	else:
+		raise ValueError(t)
+	if nest and t in ('arr', 'seq', 'range', 'bool', 'slice') and rng.random() < 0.6:
+		# index the result once more (length of the result by plain Python semantics)
+		if t in ('arr', 'seq'):
+			m = len(spec['v'])
+		elif t == 'range':
+			m = len(range(spec['a'], spec['b'], spec['st']))
+		elif t == 'bool':
+			m = sum(spec['v'])
+		else:
+			m = len(range(n)[slice(spec['a'], spec['b'], spec['st'])])
+		if m >= 1:
+			spec['then'] = rxspec(rng, m, rng.choice(['int', 'arr', 'seq', 'slice', 'bool']), nest=False)
+	return spec
+
+
+XTYPES = ('int', 'int', 'int_oob', 'arr', 'arr', 'arr_oob', 'seq', 'seq', 'range', 'bool', 'slice', 'slice', 'slice')
+
+
+def rapi_case(rng, fixed=()):
+	"""a random round-trip case of the api kind; `fixed` pins some dimensions"""
+	k = rng.choice([1, 4, 5, 8, 9, 11, 16, 17, 31, 32, rng.randint(1, 32)])
+	dtype = index_dtype(k) if rng.random() < 0.7 else rng.choice(list(DT))
+	n = rng.choice([1, 2, 3, rng.randint(1, 8), rng.randint(4, 20)])
+	sigs = [rsig(rng, k, rng.choice([3, 10, 40]), dtype) for _ in range(n)]
+	c = dict(k=k, prefix=''.join(rng.choice('ACGT') for _ in range(rng.randint(0, 7))), dtype=dtype, sigs=sigs, seed=rng.randrange(10 ** 6),
+	         idx=[[rng.randrange(n) for _ in range(rng.randint(1, 4))]], slices=[[rng.randrange(n), n]])
+	dims = {d: rng.choice(v) if rng.random() < 0.5 else v[0] for d, v in API_DIMS.items()}
+	dims.update(fixed)
+	# keep a pinned dimension effective: ids forms need a wrapper, construction forms need an in-memory base,
+	# reader forms need the signatures in the root group
+	if 'idform' in fixed and dims['wrap'] in ('none', 'reloaded'):
+		dims['wrap'] = rng.choice(['annot', 'annot_annot', 'custom_ref', 'annot_reloaded'])
+	if 'base' in fixed and dims['wrap'] in ('reloaded', 'annot_reloaded', 'custom_ref'):
+		dims['wrap'] = rng.choice(['none', 'annot', 'annot_annot'])
+	if 'reader' in fixed and dims['writer'] == 'create_group':
+		dims['writer'] = 'dump'
+	comp, copts = dims.pop('comp')
+	c.update(dims)
+	c['compression'] = comp
+	if copts == 'explicit':
+		c['explicit_none'] = True
+	elif copts is not None:
+		c['copts'] = copts
+	if c['reuse'] == 'twice':
+		c['compression2'] = rng.choice(COMPRESSIONS)
+	if c['reuse'] == 'overwrite_sigfile':
+		c['reuse'], c['pre'] = 'overwrite', 'sigfile'
+	if c['reuse'] == 'same_file' and c['rkw'].get('mode') in ('r+', 'a'):
+		c['rkw'] = {}
+	if c['writer'] == 'create_group':
+		c['reader'] = 'class'
+	# ids / metadata only exist on wrappers
+	if c['wrap'] == 'none':
+		c['container'] = 'array' if c['base'].startswith('array') else 'list'
+		c['ids'] = c['meta'] = None
+		c['idform'] = 'plain'
+	else:
+		c['container'] = 'annot_list'
+		c['meta'] = rmeta(rng)
+		ids = rids(rng, n)
+		if c['idform'] != 'plain' and ids is None:
+			ids = dict(kind='int', dtype=rng.choice(['i8', 'u2', 'i4']), vals=[rng.randint(0, 30000) for _ in range(n)])
+		if c['idform'] == 'pylist' and ids['kind'] == 'int':
+			# plain Python lists: NumPy infers int64, or uint64 when every entry is >= 2^63
+			if rng.random() < 0.5:
+				ids = dict(kind='int', dtype='u8', vals=[rng.randint(2 ** 63, 2 ** 64 - 1) for _ in range(n)])
+			else:
+				ids = dict(kind='int', dtype=None, vals=[rng.randint(-2 ** 63, 2 ** 63 - 1) for _ in range(n)])
+		c['ids'] = ids
+		if c['wrap'] == 'reloaded':
+			# what the source file holds is what must come back; its ids are a plain dataset
+			c['idform'] = 'plain'
+			if ids is not None and ids['kind'] == 'int' and not ids.get('dtype'):
+				ids['dtype'] = 'i8'
+	if c['wrap'] in ('reloaded', 'annot_reloaded', 'custom_ref'):
+		c['base'] = 'array'
+	c['xidx'] = [rxspec(rng, n, t) for t in XTYPES]
+	return c
+
+
+def gen_api(ctx, rng):
+	# every value of every dimension several times, the other dimensions drawn at random
+	for dim, values in API_DIMS.items():
+		for v in values:
+			for _ in range(ctx.pick(3, 12)):
+				ctx.count(f'stream:api-{dim}')
+				yield 'api', rapi_case(rng, {dim: v})
+	# the container forms again on the exhaustive shapes (empty signatures at every position)
+	shapes = ([], [3], [3, 200])
+	for sigs in itertools.product(shapes, repeat=3):
+		base = rng.choice(API_DIMS['base'])
+		wrap = rng.choice(API_DIMS['wrap'])
+		c = rapi_case(rng, dict(base=base, wrap=wrap))
+		n = 3
+		c.update(k=4, dtype='u1', sigs=[list(s) for s in sigs], idx=[[0], [2, 0]], slices=[[0, 3]], xidx=[rxspec(rng, n, t) for t in XTYPES])
+		if c.get('ids') is not None:
+			c['ids']['vals'] = c['ids']['vals'][:n] + c['ids']['vals'][:1] * (n - len(c['ids']['vals']))
+		ctx.count('stream:api-small-shapes')
+		yield 'api', c
+	for _ in range(ctx.pick(60, 1500)):
+		ctx.count('stream:api-random')
+		yield 'api', rapi_case(rng)
+
+
+def gen_foreign2(ctx, rng):
+	for content in FX_CONTENTS:
+		for ch in FX_PY + FX_CLI:
+			for _ in range(ctx.pick(1, 4)):
+				ctx.count('stream:foreign2-' + ('python' if ch in FX_PY else 'cli'))
+				yield 'foreign2', dict(content=content, channel=ch, seed=rng.randrange(10 ** 6),
+				                       fname=rng.choice(['file.bin', 'sigs.gs', 'data.h5', 'genome.fasta', 'ünï 漢.gs', 'no extension']))
+
+
+def rgenome(rng, prefix, k):
+	"""contigs with the prefix planted a few times (so that long prefixes / large k still give k-mers), N runs, lower case"""
+	contigs = []
+	for _ in range(rng.choice([0, 1, 1, 2, 3])):
+		parts = []
+		for _ in range(rng.randint(0, 6)):
+			parts.append(''.join(rng.choice('ACGTacgtN') for _ in range(rng.randint(0, 60))))
+			if rng.random() < 0.7:
+				parts.append(prefix if rng.random() < 0.8 else prefix.lower())
+				parts.append(''.join(rng.choice('ACGT') for _ in range(rng.choice([k, k, k - 1, k + 5]))))
+		contigs.append(''.join(parts))
+	return contigs
+
+
+def gen_cli2(ctx, rng):
+	forms = [dict(input='listfile'), dict(input='listfile_ldir'), dict(kspec='default'), dict(kspec='db'), dict(cores=1), dict(cores=2),
+	         dict(long=True), dict(progress=True), dict(empty=True), dict()]
+	for form in forms * ctx.pick(1, 4):
+		# the command line accepts k >= 5 and prefixes of >= 2 letters; smaller ones only arrive through --db-params
+		db = form.get('kspec') == 'db'
+		k = rng.choice(([1, 2, 4] if db else []) + [5, 8, 9, 11, 16, 17, 31, 32])
+		prefix = ''.join(rng.choice('ACGT') for _ in range(rng.randint(1 if db else 2, 5)))
+		if form.get('kspec') == 'default':
+			k, prefix = 11, 'ATGAC'
+		ng = rng.randint(1, 4)
+		genomes = [rgenome(rng, prefix, k) for _ in range(ng)]
+		if form.get('empty'):
+			genomes[rng.randrange(ng)] = rng.choice([[], [''], ['NNNN']])
+		ids = None if rng.random() < 0.5 else [f'{rng.choice(["id", "é", "漢", "G", "a b"])}{i}' for i in range(ng)]
+		meta = None if rng.random() < 0.3 else dict(id=rstr(rng), name='n', version='1.0', id_attr='key', description=rstr(rng),
+		                                            extra={'author': rstr(rng), 'nested': {'a': [1, None]}})
+		if meta is not None and rng.random() < 0.3:
+			meta = {f: v for f, v in meta.items() if rng.random() < 0.5}
+		ctx.count('stream:cli-forms')
+		yield 'cli', dict(k=k, prefix=prefix, genomes=genomes, ids=ids, meta=meta, **form)
